@@ -446,8 +446,14 @@ def analyse(s, res, strict_order=False):
             # out-of-band groups first, then at most one in-band group.  A batch of Parses / named Closes only may be
             # answered by the pooler alone: the groups that follow then belong to later batches, so look ahead first.
             problem, n1, n3, used = None, 0, 0, None
+            # Which groups may precede the batch's own group: for a batch with a Bind/Describe, pgcat's Close*/Parse/Sync
+            # exchanges (it prepares the statement itself); for a batch of Parses / named Closes only, nothing but eviction
+            # Closes (its Parse travels in-band) — a `Parse Sync` group further on is the in-band group of a LATER batch,
+            # even when it carries the same query (pool-level cache of size 1: the query gets a new PGCAT name).
             g2 = gi
-            while g2 < len(groups) and is_oob(groups[g2], client_queries) and match_inband(batch, groups[g2], copy.copy(cnames))[0] is not None:
+            own_parse_ok = needs_server(batch)
+            while g2 < len(groups) and is_oob(groups[g2], client_queries) and (own_parse_ok or all(m["tag"] == "C" for m in groups[g2][:-1])) \
+                    and match_inband(batch, groups[g2], copy.copy(cnames))[0] is not None:
                 g2 += 1
             trial = copy.copy(cnames)
             if g2 < len(groups):
